@@ -81,6 +81,7 @@ var shapeGoTypes = map[string]reflect.Type{
 	"*[]string": reflect.TypeOf((*[]string)(nil)), "time.Time": reflect.TypeOf(time.Time{}), "*uint64": reflect.TypeOf((*uint64)(nil)),
 	"*[]uint8": reflect.TypeOf((*[]byte)(nil)), "*time.Time": reflect.TypeOf((*time.Time)(nil)), "*bool": reflect.TypeOf((*bool)(nil)),
 	"*string": reflect.TypeOf((*string)(nil)),
+	"**int":   reflect.TypeOf((**int)(nil)), "**string": reflect.TypeOf((**string)(nil)), // pointers to pointers: no attribute kind
 }
 
 // jname: the json name a field token stands for ("~" = the key with an empty value)
